@@ -120,6 +120,7 @@ def main(argv=None) -> int:
         os.makedirs(rdir, exist_ok=True)
         path = os.path.join(rdir, d["key"] + ".json")
         d["property"] = prop
+        d["tier"] = args.tier
         json.dump(d, open(path, "w"), indent=1, default=str)
         print(f"VIOLATION property={prop} replay={path}")
         print(f"  clause={d['clause']} expected={d.get('expected')!r} observed={d.get('observed')!r}")
